@@ -515,6 +515,55 @@ func genTopoCluster(r *u.Rng, dotted bool) Cluster {
 	return c
 }
 
+// genContended: every GPU is held by a low-priority running pod; the pending jobs
+// (constraints, topology shapes) can only be placed by reclaim / preempt / consolidation,
+// i.e. through nominations on nodes that carry taints, conditions and other pods.
+func genContended(r *u.Rng) Cluster {
+	var c Cluster
+	levels := [][]string{{"zone"}, {"zone", "rack"}}[r.Intn(2)]
+	c.Topos = []Topo{{Name: "T", Levels: levels}}
+	genNodes(r, &c, r.Range(2, 4), levels, false, 3)
+	c.Queues = []cycle.Queue{{Name: "q1", Deserved: 0, Limit: 0, OverQuota: 1, Priority: 100}, {Name: "q2", Deserved: 4, Limit: 0, OverQuota: 1, Priority: 100}}
+	k := 0
+	for _, n := range c.Nodes {
+		for g := int64(0); g < n.Gpus; g++ {
+			if r.Chance(1, 6) {
+				continue // a free GPU here and there
+			}
+			k++
+			p := Pod{PodSpec: core.PodSpec{Name: fmt.Sprintf("f%d-0", k), Cpu: 250, Mem: 1 << 30, Gpus: 1, Status: pod_status.Running, Node: n.Name}}
+			p.Labels = genPodLabels(r)
+			if r.Chance(1, 5) {
+				p.Anti = genPodTerms(r, false)
+			}
+			c.Jobs = append(c.Jobs, Job{Name: fmt.Sprintf("f%d", k), Queue: u.Pick(r, []string{"q1", "q1", "q2"}), Priority: 50, MinMember: 1,
+				AgeMinutes: r.Range(20, 60), StartedMins: r.Range(10, 120), Pods: []Pod{p}})
+		}
+	}
+	dens := r.Pick3(1, 2, 3)
+	for i, nj := 0, r.Range(1, 3); i < nj; i++ {
+		j := Job{Name: fmt.Sprintf("j%d", i+1), Queue: "q2", Priority: int32(u.Pick(r, []int{100, 125})), AgeMinutes: r.Range(1, 15)}
+		np := r.Range(1, 3)
+		j.MinMember = int32(r.Range(1, np))
+		for k := 0; k < np; k++ {
+			p := Pod{PodSpec: core.PodSpec{Name: fmt.Sprintf("%s-%d", j.Name, k), Cpu: 250, Mem: 1 << 30, Gpus: 1, Status: pod_status.Pending}}
+			decorate(r, &p, &c, allPods(c), dens, false)
+			j.Pods = append(j.Pods, p)
+		}
+		if r.Chance(1, 2) {
+			genShape(r, &j, levels, true)
+		}
+		c.Jobs = append(c.Jobs, j)
+	}
+	c.Actions = []string{"allocate"}
+	for _, a := range []string{"consolidation", "reclaim", "preempt"} {
+		if r.Chance(3, 4) {
+			c.Actions = append(c.Actions, a)
+		}
+	}
+	return c
+}
+
 // genCycle: a cluster for whole cycles (T3).
 func genCycle(r *u.Rng, dotted bool) Cluster {
 	var c Cluster
